@@ -2,11 +2,15 @@ import AiocoapModel.Observe.Fresh
 /-!
 # The client side of an observation: the runner of `aiocoap.protocol.Request`
 
-Model of `Request.__init__` / `_response_cancellation_handler` / `_run`
-(`aiocoap/protocol.py:651-832`, after the `fix:` commits for C07 — a first response that lacks
-the Observe option but is not marked last now signals `NotObservable` like one that is marked
-last) together with the parts of `ClientObservation` (`protocol.py:1178-1373`) it drives:
-`callback`, `error` (which cancels) and `cancel`.
+Model of `Request.__init__` / `_response_cancellation_handler` / `_is_notification` / `_run`
+(`aiocoap/protocol.py:651-848`, after the `fix:` commits for C07 — a first response that lacks
+the Observe option but is not marked last signals `NotObservable` like one that is marked
+last; only a *successful* response with Observe option is a notification (`_is_notification`,
+`protocol.py:703-708`), every other response is the final one; the `error()` calls of the loop
+are guarded by `observation.cancelled` (the application may cancel from inside its callback);
+cancelling the response future before the first event ends the observation with
+`ObservationCancelled`) together with the parts of `ClientObservation`
+(`protocol.py:1256-1455`) it drives: `callback`, `error` (which cancels) and `cancel`.
 
 The runner is a generator that is resumed once per event put on the request's `Pipe`
 (`Pipe.add_response(message, is_last)`, `Pipe.add_exception(exc)` — an exception is always last,
@@ -14,25 +18,34 @@ The runner is a generator that is resumed once per event put on the request's `P
 `Delivery`s in program order:
 
 * `response m` / `responseExc k` — `self.response.set_result(m)` / `.set_exception(exc)`
-  (`protocol.py:717/719`);
+  (`protocol.py:729/731`);
 * `callback m` — `self.observation.callback(m)`: every registered callback (and the async
-  iterator's `push`) gets `m` (`protocol.py:818`, `1328`);
+  iterator's `push`) gets `m` (`protocol.py:830`, `1406`);
 * `errback k` — `self.observation.error(exc)`: every registered errback gets the exception, the
-  observation is cancelled (`protocol.py:747/749/754/782/821/825`, `1336`);
+  observation is cancelled (`protocol.py:695/759/761/766/794/836/841`, `1414`);
 * `stopInterest` — `self._stop_interest()`, the requester withdraws from the pipe, which makes
-  the token manager forget the token (`tokenmanager.py:240`).
+  the token manager forget the token (`tokenmanager.py:261`).
 
 When the runner returns, its `process` callback is dropped from the pipe, the pipe ends
 (`pipe.py:186-189`) and discards every later event (`pipe.py:166-180`): state `ended`.
+
+A third thing the application can do is part of a message: `Msg.cancels` says that the
+application calls `request.observation.cancel()` from inside the callback that hands it this very
+message (`ClientObservation.callback` runs the application's code synchronously, in the middle of
+the runner's turn: `protocol.py:830`).
 
 Two things the application can do are events as well: `obsCancel` = `request.observation.cancel()`
 (the runner notices at its next resumption: `self.observation.cancelled` is tested in the loop and —
 since commit 5a6f232 — on the first-event paths as well, so an observation
 cancelled before the first response is never told anything while the response future completes as
-usual) and `respCancel` = `request.response.cancel()` (`protocol.py:681-693`).  `obsCancel` twice
-(the "cancelled twice" assertion of `ClientObservation.cancel`, raised in the application's own
-call), or on a request without Observe option (`request.observation` is `None`), is not modelled:
-state `unmodelled` (the driver answers `out-of-model`).
+usual) and `respCancel` = `request.response.cancel()` (`protocol.py:681-698`).  `obsCancel` on an
+observation that is cancelled already — by the application, or because it has ended: `error()`
+cancels — does nothing (`ClientObservation.cancel`, `protocol.py:1428-1449`, since the `fix:`
+commit "cancelling an observation that is already cancelled does nothing"; that also covers an
+errback that cancels the observation it is being told the end of: no separate event, the
+deliveries are the same).  `obsCancel` on a request without Observe option
+(`request.observation` is `None`) is not modelled: state `unmodelled` (the driver answers
+`out-of-model`).
 
 The lossy `_Iterator` behind `async for` and the replay done by `__aiter__` are modelled in
 `Observe/Iterator.lean`.  Not modelled (runtime): the asyncio future behind `response`,
@@ -41,13 +54,24 @@ interface), logging.
 -/
 namespace Aiocoap.Observe
 
-/-- a response as far as the runner and the application's view of it matter: the runner only
-reads the Observe option; `code` and `body` identify the message -/
+/-- a response as far as the runner and the application's view of it matter: the runner reads
+the Observe option and whether the code is a successful one; `body` identifies the message;
+`cancels`: the application's callback, when handed this message, calls
+`request.observation.cancel()` (an attribute of the application's reaction to the message, fixed
+by the harness per arrival) -/
 structure Msg where
   code : Nat
   obs : Option Nat
   body : Nat
+  cancels : Bool := false
 deriving DecidableEq, Repr
+
+/-- `Code.is_successful` (`numbers/codes.py:89-91`): class 2.xx -/
+def successful (code : Nat) : Bool := decide (64 ≤ code) && decide (code < 96)
+
+/-- `Request._is_notification` (`protocol.py:703-708`): the Observe value of a response that is a
+notification — a successful response carrying the option — `none` for every other response -/
+def Msg.notif (m : Msg) : Option Nat := if successful m.code then m.obs else none
 
 /-- what the errbacks receive -/
 inductive ErrKind
@@ -96,58 +120,66 @@ def Event.isPipe : Event → Bool
   | .exception _ => true
   | _ => false
 
-/-- `protocol.py:707-761` -/
+/-- `protocol.py:719-777`; `respCancel`: `_response_cancellation_handler`, `protocol.py:681-698` -/
 def stepFirst (cfg : Cfg) (t : Nat) : Event → ObsState × List Delivery
   | .message m last =>
     if !cfg.observe then
       (.ended, .response m :: (if last then [] else [.stopInterest]))
     else if last then
       (.ended, [.response m, .errback .notObservable])
-    else match m.obs with
+    else match m.notif with
       | none => (.ended, [.response m, .errback .notObservable, .stopInterest])
       | some v => (.observing v t, [.response m])
   | .exception k =>
-    -- `protocol.py:738-750` (second `fix:` commit for C07): the observation is told the
+    -- `protocol.py:750-762` (second `fix:` commit for C07): the observation is told the
     -- transport's exception, not `NotObservable`
     (.ended, .responseExc k :: (if cfg.observe then [.errback (.transport k)] else []))
   | .obsCancel => if cfg.observe then (.cancelledFirst, []) else (.unmodelled, [])
-  | .respCancel => (.ended, [.stopInterest])
+  | .respCancel =>
+    -- the runner is dropped, the interest withdrawn, and a not yet cancelled observation is told
+    -- that nothing will come (`protocol.py:686-695`)
+    (.ended, .stopInterest :: (if cfg.observe then [.errback .observationCancelled] else []))
 
 /-- the first event when the application has cancelled the observation before
-(`protocol.py:707-761`, the `self.observation.cancelled` tests of commit 5a6f232): the
+(`protocol.py:719-773`, the `self.observation.cancelled` tests of commit 5a6f232): the
 response future completes as usual, the observation is told nothing; a first notification still
 starts the loop, whose first resumption withdraws from the pipe (`stepCancelled`) -/
 def stepCancelledFirst : Event → ObsState × List Delivery
   | .message m last =>
     if last then (.ended, [.response m])
-    else match m.obs with
+    else match m.notif with
       | none => (.ended, [.response m, .stopInterest])
       | some _ => (.appCancelled, [.response m])
   | .exception k => (.ended, [.responseExc k])
-  | .obsCancel => (.unmodelled, [])            -- "ClientObservation cancelled twice"
+  | .obsCancel => (.cancelledFirst, [])        -- cancelled already: `cancel()` does nothing
   | .respCancel => (.ended, [.stopInterest])
 
-/-- one turn of the `while True` loop, `protocol.py:768-832` -/
+/-- one turn of the `while True` loop, `protocol.py:779-848`.  `gone`: the application cancelled
+the observation from inside the callback (`m.cancels`, and there was a callback) — the
+`observation.cancelled` guards of `protocol.py:832-841` then skip `error()`, and a loop that goes
+on finds the observation cancelled at its next resumption (`protocol.py:788-791`). -/
 def stepObserving (cfg : Cfg) (v1 t1 t : Nat) : Event → ObsState × List Delivery
   | .message m last =>
-    match m.obs with
+    match m.notif with
     | some v2 =>
       let recent := fresher cfg.reset v1 t1 v2 t
       let ds : List Delivery := if recent then [.callback m] else []
-      if last then (.ended, ds ++ [.errback .observationCancelled])
-      else (if recent then .observing v2 t else .observing v1 t1, ds)
+      let gone := recent && m.cancels
+      if last then (.ended, ds ++ (if gone then [] else [.errback .observationCancelled]))
+      else (if gone then .appCancelled else if recent then .observing v2 t else .observing v1 t1, ds)
     | none =>
-      (.ended, [.callback m, .errback .observationCancelled] ++
+      -- "the terminal message is always the last": handed over without a freshness test
+      (.ended, .callback m :: (if m.cancels then [] else [.errback .observationCancelled]) ++
                  (if last then [] else [.stopInterest]))
   | .exception k => (.ended, [.errback (.transport k)])
   | .obsCancel => (.appCancelled, [])
   | .respCancel => (.observing v1 t1, [])      -- the future is done: `cancel()` does nothing
 
-/-- `protocol.py:776-779`: the observation was cancelled by the application -/
+/-- `protocol.py:788-791`: the observation was cancelled by the application -/
 def stepCancelled : Event → ObsState × List Delivery
   | .message _ _ => (.ended, [.stopInterest])
   | .exception _ => (.ended, [.stopInterest])
-  | .obsCancel => (.unmodelled, [])            -- "ClientObservation cancelled twice"
+  | .obsCancel => (.appCancelled, [])          -- cancelled already: `cancel()` does nothing
   | .respCancel => (.appCancelled, [])
 
 def step (cfg : Cfg) (s : ObsState) (e : TEvent) : ObsState × List Delivery :=
@@ -158,9 +190,10 @@ def step (cfg : Cfg) (s : ObsState) (e : TEvent) : ObsState × List Delivery :=
   | .appCancelled => stepCancelled e.ev
   | .ended =>
     -- the pipe discards the event (`pipe.py:166-180`); `response.cancel()` finds nothing to do;
-    -- `observation.cancel()` on an observation that `error()` already cancelled trips the
-    -- "cancelled twice" assertion in the application's call: not modelled
-    (if e.ev = .obsCancel then .unmodelled else .ended, [])
+    -- `observation.cancel()`: the observation of a runner that has returned is cancelled (by
+    -- `error()` or by the application), so it does nothing; without Observe option there is no
+    -- observation to call it on: not modelled
+    (if e.ev = .obsCancel && !cfg.observe then .unmodelled else .ended, [])
   | .unmodelled => (.unmodelled, [])
 
 /-- a whole history; every delivery is tagged with the time of the event that caused it -/
